@@ -221,6 +221,14 @@ func c04Round(c *core.Ctx, round int) {
 	b["ordered"] = yaml.MapSlice{{Key: "a", Value: 1}, {Key: "b", Value: 2}}
 	b["tm"] = time.Date(2020, 2, 3, 4, 5, 6, 0, time.UTC)
 	b["nothing"] = nil
+	// date strings in many layouts: parsing them consults process-wide tables from every goroutine
+	tm0 := time.Date(2021, 3, 4, 5, 6, 7, 0, time.UTC)
+	var dstrs []any
+	for _, layout := range []string{time.ANSIC, time.UnixDate, time.RubyDate, time.RFC822, time.RFC822Z, time.RFC850, time.RFC1123, time.RFC1123Z, time.RFC3339, "2006-01-02", "2006-01-02 15:04:05", "Jan 2 2006", "January 2, 2006", "2006-01-02 15:04:05 -0700"} {
+		dstrs = append(dstrs, tm0.Format(layout))
+	}
+	b["dstrs"] = dstrs
+	b["dlast"], b["dfirst"] = dstrs[len(dstrs)-1], dstrs[0]
 	// Drops already wrapped as values.Value and shared by all renders (the library's own TestDrop_Resolve_race does
 	// this): replaced by fresh, unresolved wrappers before every concurrent burst, so that the first resolution
 	// itself happens under contention
@@ -231,6 +239,7 @@ func c04Round(c *core.Ctx, round int) {
 	}
 	freshWrapped()
 	srcs = append(srcs, "{{ wdrop | join: ',' }}{% for x in wdrop %}{{ x }}{% endfor %}{{ wdrop.first }}{{ wdrop.size }}", "{{ wdrop2.k }}{{ wdrop2.l | join: '+' }}{{ wdrop3 | upcase }}{{ wdrop3 }}{% if wdrop contains 2 %}c{% endif %}{% for kv in wdrop2 %}{{ kv[0] }}{% endfor %}")
+	srcs = append(srcs, "{% for d in dstrs %}{{ d | date: '%Y-%m-%d %H:%M' }};{% endfor %}", "{{ dlast | date: '%Y %j' }}{{ dfirst | date: '%H' }}{{ dstrs[7] | date: '%d' }}{{ dstrs[3] | date: '%m' }}", "{% for d in dstrs reversed %}{{ d | date: '%y' }}{% endfor %}")
 	srcs = append(srcs, "{{ ydrop | join: ',' }}{% for x in ydrop %}{{ x }}{% endfor %}{{ ydrop.first }}", "{% for k in keyed %}{{ k }}{% endfor %}{{ ordered.a }}{% for kv in ordered %}{{ kv[1] }}{% endfor %}")
 
 	if !c.Begin(fmt.Sprintf("round %d: %d templates", round, len(srcs))) {
